@@ -1193,8 +1193,15 @@ def _sample_point(st: State, img: np.ndarray, coords: List[Expr], mode: int, pad
                 for ch in range(C):
                     outs[ch].append(E.mul(img[(ch,) + tuple(idx)], w))
         return [E.add(*o) if o else E.ZERO for o in outs]
-    # symbolic coordinates
-    return _sample_symbolic(st, img, coords, mode, pad)
+    # symbolic coordinates: rebuilt from their ring normal form first (cancels R^T R, s / s, ... so that a coordinate
+    # that is linear in the free symbols also looks linear to the cheap entailment checks)
+    simp = []
+    for c in coords:
+        try:
+            simp.append(run.ring.simplified(c) if E.size(c) < 3000 else c)
+        except Exception:
+            simp.append(c)
+    return _sample_symbolic(st, img, simp, mode, pad)
 
 
 def _affine_fit(run, img_c: np.ndarray):
